@@ -239,19 +239,80 @@ func checkRawTextNeverDecides(c *core.Ctx, prog *core.Prog) {
 	if eq := prog.Func(pkgJSON, "Equal"); eq == nil {
 		r.Undecided("anchor:Equal", "-", "json.Equal not found")
 	} else {
+		// the true-edges of errors.Is(<Skip() of a decoder>, io.EOF), per decoder
+		eofEdges := map[ssa.Value][]*ssa.BasicBlock{}
+		var equalCall *ssa.Call
+		for _, call := range core.Calls(eq) {
+			cv, isCall := call.(*ssa.Call)
+			if !isCall {
+				continue
+			}
+			name := core.CalleeName(call.Common())
+			if strings.HasSuffix(name, "json.compare).equal") {
+				equalCall = cv
+			}
+			if name != "github.com/go-faster/errors.Is" && name != "errors.Is" {
+				continue
+			}
+			skip, ok := call.Common().Args[0].(*ssa.Call)
+			if !ok || core.CalleeName(skip.Common()) != "(*github.com/go-faster/jx.Decoder).Skip" {
+				continue
+			}
+			if g, ok := call.Common().Args[1].(*ssa.UnOp); !ok || !strings.HasSuffix(g.X.String(), "EOF") {
+				continue
+			}
+			dec := skip.Common().Args[0]
+			if ld, ok := dec.(*ssa.UnOp); ok && ld.Op == token.MUL {
+				dec = ld.X // the variable cell (captured by the deferred Put)
+			}
+			eofEdges[dec] = append(eofEdges[dec], core.EdgeBlocks(cv, true)...)
+		}
 		okRet := true
+		nTrue := 0
 		for _, b := range eq.Blocks {
 			ret, isRet := b.Instrs[len(b.Instrs)-1].(*ssa.Return)
 			if !isRet || len(ret.Results) != 2 {
 				continue
 			}
-			if isConstBool(ret.Results[0], true) {
+			res0 := ret.Results[0]
+			// with a defer the results are spilled: `*t0 = v; rundefers; return *t0`
+			if ld, ok := res0.(*ssa.UnOp); ok && ld.Op == token.MUL {
+				var last ssa.Value
+				for _, in := range b.Instrs {
+					if st, ok := in.(*ssa.Store); ok && st.Addr == ld.X {
+						last = st.Val
+					}
+				}
+				if last == nil {
+					continue // the recover block: returns whatever was stored before the panic
+				}
+				res0 = last
+			}
+			if isConstBool(res0, false) {
+				continue
+			}
+			nTrue++
+			// a possibly-true result: after compare.equal said so, and after both inputs ended
+			after := equalCall != nil && core.DominatedBySuccess(equalCall, b)
+			nDec := 0
+			for _, edges := range eofEdges {
+				for _, e := range edges {
+					if e == b || e.Dominates(b) {
+						nDec++
+						break
+					}
+				}
+			}
+			if !isConstBool(res0, true) || !after || nDec < 2 {
 				okRet = false
-				r.Fail("Equal:constant-true", c.Pos(ret.Pos()), "json.Equal returns true without going through compare.equal: the texts were not parsed, so malformed input compares equal to itself and the answer changes with trailing whitespace")
+				r.Fail("Equal:true-without-end-of-input", c.Pos(ret.Pos()), "json.Equal can return true without compare.equal having succeeded and both decoders having reported io.EOF: unparsed text compares equal to itself, or data after the first value is ignored (Equal(\"1\", \"1 x\") is true)")
 			}
 		}
-		if okRet {
-			r.Pass("json.Equal: every true result comes from compare.equal")
+		if okRet && nTrue > 0 {
+			r.Pass("json.Equal: true only after compare.equal succeeded and both inputs ended (Skip → io.EOF)")
+		}
+		if nTrue == 0 {
+			r.Undecided("Equal:no-true-return", c.Pos(eq.Pos()), "json.Equal has no return that can be true")
 		}
 	}
 	// (c) generator
